@@ -154,8 +154,22 @@ fn threads(id: String, seed: u64, max_nodes: usize) -> Value {
     steps.push(json!({"a": "relay", "seq": 100000, "h": last, "found": f1, "nodes": nodes_json(&relay)}));
     let f2 = recv.recv(Term(last));
     steps.push(json!({"a": "recv", "seq": 100001, "h": last, "found": f2, "nodes": nodes_json(&recv)}));
+    // the producer is gone by now (its sender is dropped): a store that has seen the hang-up still answers for what it holds
+    let mut seq = 100002;
+    for h in [0usize, 1, 2, prod_nodes.len() - 1, prod_nodes.len()] {
+        let f = relay.recv(Term(h));
+        steps.push(json!({"a": "relay", "seq": seq, "h": h, "found": f, "nodes": nodes_json(&relay)}));
+        seq += 1;
+    }
+    let final_relay = nodes_json(&relay);
+    drop(relay);
+    for h in [last, 0usize, 1, 2, prod_nodes.len() - 1, prod_nodes.len()] {
+        let f = recv.recv(Term(h));
+        steps.push(json!({"a": "recv", "seq": seq, "h": h, "found": f, "nodes": nodes_json(&recv)}));
+        seq += 1;
+    }
     json!({"kind": "frontend", "id": id, "mode": "threads", "prod": nodes_of(&prod_nodes), "stream": nodes_of(&prod_nodes[2..]), "steps": steps,
-           "final_relay": nodes_json(&relay), "final_recv": nodes_json(&recv), "channel": (["unbounded", "bounded1", "bounded2"][(seed % 3) as usize]),
+           "final_relay": final_relay, "final_recv": nodes_json(&recv), "channel": (["unbounded", "bounded1", "bounded2"][(seed % 3) as usize]),
            "channel2": (["unbounded", "bounded1", "bounded3"][((seed / 3) % 3) as usize])})
 }
 
